@@ -82,3 +82,19 @@ Qed.
 (* Python list indexing inside the bounds *)
 Lemma idx_in i l : 0 <= i < zlen l -> idx i l = Some (nth (Z.to_nat i) l 0).
 Proof. intros H. unfold idx. rewrite if_true by lia. reflexivity. Qed.
+
+Lemma ztake_c_app {A} (a b : list A) n : zlen a = n -> ztake_c n (a ++ b) = a.
+Proof.
+  intros <-. unfold ztake_c. destruct (zlen (a ++ b) <=? zlen a) eqn:E.
+  - rewrite zlen_app in E. assert (zlen b = 0) by (pose proof (zlen_nonneg b); lia).
+    destruct b; [apply app_nil_r | rewrite zlen_cons in H; pose proof (zlen_nonneg b); lia].
+  - apply ztake_app_exact.
+Qed.
+Lemma zdrop_c_app {A} (a b : list A) n : zlen a = n -> zdrop_c n (a ++ b) = b.
+Proof.
+  intros <-. unfold zdrop_c. destruct (zlen (a ++ b) <=? zlen a) eqn:E.
+  - rewrite zlen_app in E. assert (zlen b = 0) by (pose proof (zlen_nonneg b); lia).
+    destruct b; [reflexivity | rewrite zlen_cons in H; pose proof (zlen_nonneg b); lia].
+  - apply zdrop_app_exact.
+Qed.
+
